@@ -113,6 +113,21 @@ impl Set {
 				if f.live > 1 {
 					f.push("C04/live-count-above-one".into(), format!("live={}", f.live));
 				}
+				// a replacement may only be spawned once the previous exit status was collected:
+				// dropping the handle kills the process but collects nothing
+				for (sp, sid) in &f.spawns {
+					for (i, r) in f.log.iter().enumerate().take(*sp) {
+						if let Ev::Drop { id } = &r.ev {
+							let reaped_before = f.log[..i].iter().any(|x| matches!(&x.ev, Ev::Reap { id: j, .. } if j == id));
+							if !reaped_before {
+								f.push(
+									format!("C04/spawn-after-unreaped-drop/after-{}", f.last_op_before(*sp)),
+									format!("spawn#{sid} at log {sp}: child #{id} was dropped at log {i} without its exit status having been collected"),
+								);
+							}
+						}
+					}
+				}
 			}
 			Set::C06 => c06_quiescent(&f, sc, now),
 			Set::C07 => c07_quiescent(&f, sc, now, after_drain),
@@ -165,7 +180,7 @@ fn c06_quiescent(f: &Facts, sc: &Sc, now: u64) {
 		let end = f.gone_at.get(c).copied().unwrap_or(usize::MAX);
 		for (pm, idx, _, _) in &f.markers {
 			let Some(m) = f.ops.iter().find(|o| o.idx == *idx) else { continue };
-			if m.log_pos > gop.log_pos && *pm > *ps && *pm < end {
+			if m.op.prio() == Prio::Normal && m.log_pos > gop.log_pos && *pm > *ps && *pm < end {
 				f.push(
 					format!("C06/normal-control-ran-during-grace/{:?}", gop.op),
 					format!("marker of op {idx} ran at log {pm}, child #{c} signalled at log {ps} and not ended before log {end}"),
@@ -331,21 +346,25 @@ fn c10_end(f: &Facts, sc: &Sc) {
 	let dead_seen = hs(|h| h.dead_seen);
 	// per-sender order, at most once
 	let senders: BTreeSet<u8> = f.ops.iter().map(|o| o.sender).collect();
+	let prio_of = |idx: usize| f.ops.iter().find(|o| o.idx == idx).map_or(Prio::Normal, |o| o.op.prio());
 	for s in senders {
-		let ran: Vec<usize> = f.markers.iter().filter(|(_, _, x, _)| *x == s).map(|(_, i, _, _)| *i).collect();
-		let mut sorted = ran.clone();
-		sorted.sort_unstable();
-		let mut dedup = sorted.clone();
-		dedup.dedup();
-		if dedup.len() != ran.len() {
-			f.push("C10/control-ran-twice".into(), format!("sender {s}: markers ran {ran:?}"));
-		} else if sorted != ran {
-			f.push("C10/same-priority-reordered".into(), format!("sender {s}: markers sent in index order ran as {ran:?}"));
+		let all_ran: Vec<usize> = f.markers.iter().filter(|(_, _, x, _)| *x == s).map(|(_, i, _, _)| *i).collect();
+		for prio in [Prio::Normal, Prio::High, Prio::Urgent] {
+			let ran: Vec<usize> = all_ran.iter().copied().filter(|i| prio_of(*i) == prio).collect();
+			let mut sorted = ran.clone();
+			sorted.sort_unstable();
+			let mut dedup = sorted.clone();
+			dedup.dedup();
+			if dedup.len() != ran.len() {
+				f.push("C10/control-ran-twice".into(), format!("sender {s}: {prio:?} markers ran {ran:?}"));
+			} else if sorted != ran {
+				f.push(format!("C10/same-priority-reordered/{prio:?}"), format!("sender {s}: {prio:?} markers sent in index order ran as {ran:?}"));
+			}
 		}
 		if !dead_seen {
 			let sent: Vec<usize> = f.ops.iter().filter(|o| o.sender == s && o.op.is_marker() && !o.sent_to_dead).map(|o| o.idx).collect();
-			if sent.iter().any(|i| !ran.contains(i)) {
-				f.push("C10/control-never-ran".into(), format!("sender {s}: sent markers {sent:?}, ran {ran:?}, job alive"));
+			if sent.iter().any(|i| !all_ran.contains(i)) {
+				f.push("C10/control-never-ran".into(), format!("sender {s}: sent markers {sent:?}, ran {all_ran:?}, job alive"));
 			}
 		}
 	}
@@ -354,7 +373,7 @@ fn c10_end(f: &Facts, sc: &Sc) {
 	if !job_can_end {
 		for o in f.ops.iter().filter(|o| o.op.prio() == Prio::Normal) {
 			let Some(pr) = f.resolved.get(&(o.idx, 0)) else { continue };
-			for m in f.ops.iter().filter(|m| m.sender == o.sender && m.idx < o.idx && m.op.is_marker()) {
+			for m in f.ops.iter().filter(|m| m.sender == o.sender && m.idx < o.idx && m.op.is_marker() && m.op.prio() == Prio::Normal) {
 				let ran_before = f.markers.iter().any(|(pm, i, _, _)| *i == m.idx && pm < pr);
 				if !ran_before {
 					f.push(
@@ -374,16 +393,19 @@ fn c10_end(f: &Facts, sc: &Sc) {
 			continue;
 		}
 		let running = text.starts_with("cur=Running");
+		let own = f.ops.iter().find(|o| o.idx == *idx).map_or(Prio::Normal, |o| o.op.prio());
 		for item in pend.split(',') {
-			if item.starts_with('U') {
+			let pidx: usize = item[1..].parse().unwrap_or(usize::MAX);
+			let pop = f.ops.iter().find(|o| o.idx == pidx).map(|o| o.op);
+			if item.starts_with('U') && own < Prio::Urgent {
 				f.push(
-					"C10/normal-ran-while-urgent-pending".into(),
-					format!("marker of op {idx} ran at log {pm} while urgent control {item} was pending"),
+					format!("C10/{}-ran-while-urgent-pending", if own == Prio::High { "high" } else { "normal" }),
+					format!("marker of op {idx} ran at log {pm} while urgent control {item} ({pop:?}) was pending"),
 				);
-			} else if item.starts_with('H') && !running {
+			} else if item.starts_with('H') && own < Prio::High && (pop != Some(Op::ToWait) || !running) {
 				f.push(
 					"C10/normal-ran-while-high-pending".into(),
-					format!("marker of op {idx} ran at log {pm} ({text}) while wait-for-end {item} was pending and nothing was running"),
+					format!("marker of op {idx} ran at log {pm} ({text}) while high-priority control {item} ({pop:?}) was pending"),
 				);
 			}
 		}
